@@ -273,6 +273,28 @@ impl SubCheck for Resolve {
     fn check(&self, c: &RCase, obs: &mut Obs) -> Result<(), String> {
         let mut p = Parsed::new();
         let mut eff = Fields::default(); // fields that the documented ranges let in
+        // the 24-hour setter is the third way of supplying the two hour fields
+        {
+            let x = (c.day + c.t.secs as i64).rem_euclid(40) - 8;
+            let mut q = Parsed::new();
+            match call("Parsed::set_hour", || q.set_hour(x))? {
+                Ok(()) => {
+                    ensure!((0..=23).contains(&x), "set_hour({x}) accepted a value outside 0..=23");
+                    ensure_eq!((q.hour_div_12(), q.hour_mod_12()), (Some((x / 12) as u32), Some((x % 12) as u32)), "hour fields after set_hour({x})");
+                }
+                Err(e) => {
+                    ensure!(!(0..=23).contains(&x), "set_hour({x}) refused a value inside 0..=23 ({e:?})");
+                    ensure_eq!(kind(&e), ParseErrorKind::OutOfRange, "error kind of set_hour({x})");
+                }
+            }
+            if let (Some(a), Some(h)) = (c.fields.f[AMPM], c.fields.f[H12]) {
+                if in_setter_range(AMPM, a) && in_setter_range(H12, h) && (c.day ^ c.t.secs as i64) & 1 == 0 {
+                    obs.label("hour_via_set_hour");
+                    let h24 = a * 12 + h % 12;
+                    ensure!(call("Parsed::set_hour", || p.set_hour(h24))?.is_ok(), "set_hour({h24}) refused on an empty Parsed");
+                }
+            }
+        }
         for i in 0..NF {
             if let Some(v) = c.fields.f[i] {
                 let ok = in_setter_range(i, v);
